@@ -13,9 +13,9 @@
    follow refines the reference chown (Memfs/RefineChown.v). Memfs/RefineHistory.v puts the calls together: a reference
    filesystem working on the flat tree alone (it resolves its own path arguments against the tree's working directory), and
    the theorem that from every well-formed kind-sound state - the fresh filesystem in particular - ANY history of
-   mkfile, mkdir_p, mkdir_m, write_all, write_lines, append_all, append_line, append_lines, read_all, read_lines, remove, remove_all (off the root), symlink, readlink, readlink_abs, move_p, set_cwd, cwd, abs, chown without follow, chmod with octal modes without follow, mkfile_m, root, paths / dirs / files / all_paths / all_dirs / all_files, copy of a link-free source to a fresh destination or (a directory) into an existing directory, entries() sorted by name without follow / dirs_first / files_first / contents_first, exists / is_dir / is_file / is_symlink / is_symlink_dir / is_exec / is_readonly, mode / owner / uid / gid
+   mkfile, mkdir_p, mkdir_m, write_all, write_lines, append_all, append_line, append_lines, read_all, read_lines, remove, remove_all (off the root), symlink, readlink, readlink_abs, move_p, set_cwd, cwd, abs, chown without follow, chmod without follow (octal or symbolic, every option set the grammar accepts and that leaves no node at value 0), mkfile_m, root, paths / dirs / files / all_paths / all_dirs / all_files, copy of a link-free source to a fresh destination or (a directory) into an existing directory, entries() sorted by name without follow / dirs_first / files_first / contents_first, exists / is_dir / is_file / is_symlink / is_symlink_dir / is_exec / is_readonly, mode / owner / uid / gid
    gives call by call exactly the reference's value or error kind and
-   ends in exactly the reference's tree. PARTIAL: copy onto existing entries, of sources containing links or with follow, entries() unsorted or with follow / dirs_first / files_first / contents_first, symbolic chmod, and chmod / chown with follow are compared with the real code state-for-state
+   ends in exactly the reference's tree. PARTIAL: copy onto existing entries, of sources containing links or with follow, entries() unsorted or with follow / dirs_first / files_first / contents_first, and chmod / chown with follow are compared with the real code state-for-state
    and judged on pre/post snapshots, and proved safe (no panic, well formed, kind-sound), but their reference-level
    specification is not yet a theorem. *)
 From stdpp Require Import gmap.
